@@ -1,4 +1,4 @@
-import RpcVerif.Lemmas.PoolInv
+import RpcVerif.Lemmas.PoolFresh
 /-
   C15 — pool housekeeping spares busy connections and reclaims unused ones.
 -/
@@ -34,12 +34,54 @@ theorem C15_close_closes_all (mc mi : Int) (ka ito : Nat) (tr : List Ev) :
   intro s
   exact ⟨fun hr hc => close_closes_all s (inv_run mc mi ka ito tr) hr hc, close_idempotent s⟩
 
+/-- The hand-out window (D12, repaired in /repo by 46ebda4): whichever path of getConn hands a
+    connection out stamps it as used, so a housekeeping pass that falls between getConn and the
+    registration of the call — within KeepAlive of the hand-out — neither retires nor closes it. -/
+theorem C15_handout_window_safe (mc mi : Int) (ka ito : Nat) (tr : List Ev) (a clock id : Nat) (s' : State) :
+    let s := run (init mc mi ka ito) tr
+    getConn s a clock = (s', some id) →
+    ∀ clock', clock' ≤ clock + s'.keepAlive → clock' ≤ s'.now + s'.keepAlive →
+      ∃ p', s'.pcs id = some p' ∧ (tick s' clock').pcs id = some p' ∧
+        isOpenId (tick s' clock') id = isOpenId s' id ∧
+        ∃ cs cur, (a, cs, cur) ∈ (tick s' clock').active ∧ id ∈ cs := by
+  intro s hg clock' h1 h2
+  exact handout_window_safe s s' (inv_run mc mi ka ito tr) a clock id hg clock' h1 h2
+
+/-- A connection that is not stale at a pass is left exactly as it is, with or without calls. -/
+theorem C15_tick_spares_fresh (mc mi : Int) (ka ito : Nat) (tr : List Ev) (clock id : Nat) (p : PConn) :
+    let s := run (init mc mi ka ito) tr
+    s.pcs id = some p → clock ≤ p.lastUse + s.keepAlive → (∃ a cs cur, (a, cs, cur) ∈ s.active ∧ id ∈ cs) →
+    ∃ p', (tick s clock).pcs id = some p' ∧ p'.isOpen = p.isOpen ∧ (∃ a cs cur, (a, cs, cur) ∈ (tick s clock).active ∧ id ∈ cs) := by
+  intro s hp hf ha
+  exact tick_spares_fresh s (inv_run mc mi ka ito tr) clock id p hp hf ha
+
+/-- Reclamation: an unused connection older than KeepAlive leaves the active list at the next pass
+    and ends up in the idle queue or closed; an idle queue all of whose connections are older than
+    IdleConnTimeout, with nothing young retired behind them in the same pass, is closed entirely. -/
+theorem C15_tick_retires_unused (mc mi : Int) (ka ito : Nat) (tr : List Ev) (clock id : Nat) (p : PConn) :
+    let s := run (init mc mi ka ito) tr
+    s.running = true → s.stopped = false → s.pcs id = some p → p.calls = 0 → p.lastUse + s.keepAlive < clock →
+    (∃ a cs cur, (a, cs, cur) ∈ s.active ∧ id ∈ cs) →
+    (∀ a cs cur, (a, cs, cur) ∈ (tick s clock).active → id ∉ cs) ∧
+    ((∃ a q, (a, q) ∈ (tick s clock).idle ∧ id ∈ q) ∨ isOpenId (tick s clock) id = false) := by
+  intro s hr hs hp hc hl ha
+  have hi := inv_run mc mi ka ito tr
+  exact ⟨tick_retires_stale s hi hr hs clock id p hp hc hl ha, tick_retired_goes_idle_or_closes s hi hr hs clock id p hp hc hl ha⟩
+
+theorem C15_tick_closes_expired_queue (mc mi : Int) (ka ito : Nat) (tr : List Ev) (clock a : Nat) (q : List Nat) :
+    let s := run (init mc mi ka ito) tr
+    s.running = true → s.stopped = false → (a, q) ∈ s.idle →
+    (∀ id, id ∈ q → ∃ p, s.pcs id = some p ∧ p.lastUse + s.idleTO < clock) →
+    (∀ cs cur, (a, cs, cur) ∉ s.active) →
+    ∀ id, id ∈ q → isOpenId (tick s clock) id = false := by
+  intro s hr hs hq hold hno
+  exact tick_closes_expired_queue s (inv_run mc mi ka ito tr) hr hs clock a q hq hold hno
+
 /-
-  Not proved (stated here so that it is not lost): "ticks never close a connection with an
-  outstanding call" without the restriction to active lists. It is false of the model and of
-  the code when a tick falls between getConn handing out a stale connection and the call
-  registering on it (the connection is retired to the idle queue while it is about to be used,
-  and the idle-queue branch closes on age alone). See DESIGN.md §7 D12.
+  Observation kept from the proofs (not a violation of the property as stated): the idle half of a
+  pass tests the age of the REAR entry and closes the FRONT one, so a young connection retired to
+  the rear shields expired ones in front of it until it expires itself — reclamation of an
+  individual idle connection can be late by up to IdleConnTimeout (Lemmas/PoolReclaim.lean, exC).
 -/
 
 /-! Non-vacuity: a long call spanning a tick far beyond KeepAlive + IdleConnTimeout keeps its socket. -/
